@@ -874,6 +874,15 @@ class PDFDocument:
                         obj = self._getobj_parse(index, objid)
                         if self.decipher:
                             obj = decipher_all(self.decipher, objid, genno, obj)
+                            if (
+                                isinstance(obj, PDFStream)
+                                and obj.get("Type") is not LITERAL_XREF
+                            ):
+                                # strings in a stream's dictionary are
+                                # encrypted like any other string
+                                obj.attrs = decipher_all(
+                                    self.decipher, objid, genno, obj.attrs
+                                )
 
                     if isinstance(obj, PDFStream):
                         obj.set_objid(objid, genno)
